@@ -15,7 +15,8 @@ RULE = ("Every tree of depth <= D whose nodes are plain sync/async managers, @co
         "length <= L over the registration calls {enter_context, push(manager), push(function), push(bound method), callback, "
         "enter_async_context, push_async_exit(manager), push_async_exit(function), push_async_exit(bound method), "
         "push_async_callback} whose manager operands are again nodes; used in `async with`/`with` of a coroutine, observed at the "
-        "body suspension and at every suspension during unwinding (async managers suspend in __aexit__). Shadow tree from the "
+        "body suspension and at every suspension during unwinding (async managers suspend in __aexit__), once leaving the blocks "
+        "normally and once through an exception raised in the body (generator-based managers are then driven by throw/athrow). Shadow tree from the "
         "program's own event log: inner_stack = the manager generator's frames and their contexts unless exiting (then those "
         "frames are in the main series and inner_stack is None); ExitStack children = registered-and-not-yet-popped callbacks in "
         "order, with obj / is_async / registration method in description; recursion into children. evaluations = contexts "
@@ -472,7 +473,11 @@ def is_async_spec(spec):
     return spec[0] in ("AP", "AG", "AES")
 
 
-def run_program(roots):
+class BodyError(Exception):
+    pass
+
+
+def run_program(roots, raise_in_body=False):
     import stackscope
     rt = Rt()
     nodes = [build(s, rt, 2) for s in roots]
@@ -484,6 +489,8 @@ def run_program(roots):
     async def body(i):
         if i == len(nodes):
             await trap("body")
+            if raise_in_body:
+                raise BodyError("leave every block through the exception path")
             return
         n = nodes[i]
         if n.is_async:
@@ -552,6 +559,8 @@ def run_program(roots):
             tag = co.send(None)
     except StopIteration:
         pass
+    except BodyError:
+        pass
     return problems, counter[0], nobs[0]
 
 
@@ -561,16 +570,17 @@ def run(ctx):
         idx += 1
         if not ctx.mine(idx):
             continue
-        try:
-            problems, n, nobs = run_program(roots)
-        except Exception as ex:
-            import traceback
-            problems, n, nobs = ["harness/program raised %r: %s" % (ex, traceback.format_exc()[-600:])], 0, 0
-        ctx.count("evaluations", n)
-        ctx.count("distinct_nontrivial", nobs)
-        ctx.count("programs")
-        if problems:
-            ctx.violation({"roots": roots}, "; ".join(problems)[:1500], problems[0].split(":")[0].split("/")[0])
+        for rib in (False, True):
+            try:
+                problems, n, nobs = run_program(roots, rib)
+            except Exception as ex:
+                import traceback
+                problems, n, nobs = ["harness/program raised %r: %s" % (ex, traceback.format_exc()[-600:])], 0, 0
+            ctx.count("evaluations", n)
+            ctx.count("distinct_nontrivial", nobs)
+            ctx.count("programs")
+            if problems:
+                ctx.violation({"roots": roots, "raise_in_body": rib}, "; ".join(problems)[:1500], problems[0].split(":")[0].split("/")[0])
         if idx % 997 == 0:
             ctx.sample({"roots": roots, "observations": nobs})
 
@@ -582,5 +592,5 @@ def totuple(x):
 
 
 def replay(case):
-    problems, n, nobs = run_program(totuple(case["roots"]))
+    problems, n, nobs = run_program(totuple(case["roots"]), case.get("raise_in_body", False))
     return [{"detail": p} for p in problems]
